@@ -14,6 +14,7 @@ import ToastyVerif.Model.Cascade
 import ToastyVerif.Props.C14
 import ToastyVerif.Model.Stage
 import ToastyVerif.Model.Lock
+import ToastyVerif.Model.Walk
 
 namespace Driver
 
@@ -496,6 +497,80 @@ def handleLock (a : List String) : String :=
     | none => "bad-op"
   | _ => "bad-op"
 
+/-! ### parallel walk: prologue from the model's reducer, then replay of a recorded trace -/
+
+def parseWalkLabel (t : String) : Option Walk.L :=
+  match t.splitOn ":" with
+  | ["seed", p] => (parsePos p).map .seed
+  | ["start", k] => k.toNat?.map .start
+  | ["begin", k] => k.toNat?.map .begin
+  | ["rflush", p] => (parsePos p).map .rflush
+  | ["dflush", k, p] => match k.toNat?, parsePos p with
+    | some k, some p => some (.dflush k p)
+    | _, _ => none
+  | ["dlock"] => some .dlock
+  | ["dempty"] => some .dempty
+  | ["drecv", p] => (parsePos p).map .drecv
+  | ["release", p] => (parsePos p).map .release
+  | ["close"] => some .close
+  | ["jt"] => some .joinThread
+  | ["set"] => some .setFlag
+  | ["join", k] => k.toNat?.map .join
+  | ["rl", k] => k.toNat?.map .rlock
+  | ["rt", k] => k.toNat?.map .rlockTimeout
+  | ["re", k] => k.toNat?.map .rempty
+  | ["rr", k, p] => match k.toNat?, parsePos p with
+    | some k, some p => some (.rrecv k p)
+    | _, _ => none
+  | ["fq", k, b] => k.toNat?.map (fun k => .flagQ k (b == "1"))
+  | ["cbb", k, p] => match k.toNat?, parsePos p with
+    | some k, some p => some (.cbBegin k p)
+    | _, _ => none
+  | ["cbe", k, p] => match k.toNat?, parsePos p with
+    | some k, some p => some (.cbEnd k p)
+    | _, _ => none
+  | ["dput", k, p] => match k.toNat?, parsePos p with
+    | some k, some p => some (.dput k p)
+    | _, _ => none
+  | _ => none
+
+def showWalkPC : Walk.PC → String
+  | .seeding r => s!"seeding{r.length}" | .starting k => s!"starting{k}" | .idle => "idle" | .dlocked => "dlocked"
+  | .releasing p => s!"releasing{showP p}" | .closing => "closing" | .closed => "closed" | .joined => "joined"
+  | .joining k => s!"joining{k}" | .returned => "returned"
+
+def replayWalk (s : Walk.S) (idx : Nat) : List String → String
+  | [] =>
+    let evs := s.log.map fun e => match e with
+      | .cbBegin p => s!"B{showP p}"
+      | .cbEnd p => s!"E{showP p}"
+    let exited := (List.range s.n).all fun k => s.ws k == .exited
+    s!"ok {showWalkPC s.pc} exited={exited} log={",".intercalate evs}"
+  | t :: ts =>
+    match parseWalkLabel t with
+    | none => "bad-op"
+    | some l => match Walk.step s l with
+      | some s' => replayWalk s' (idx + 1) ts
+      | none => s!"reject {idx} {t}"
+
+/-- `walk pro <pyr…>` prints the model's prologue; `walk replay <par> <pyr…> :: labels` replays -/
+def handleWalk (a : List String) : String :=
+  match a with
+  | "pro" :: pyr => match parsePyr pyr with
+    | some (d, ap, t) => match Walk.prologue d ap t with
+      | .ok pr => s!"total={pr.total} seeds={showPs pr.seeds}"
+      | .error e => showErr e
+    | none => "bad-op"
+  | "replay" :: par :: rest =>
+    let pyr := rest.takeWhile (· ≠ "::")
+    let labels := (rest.dropWhile (· ≠ "::")).drop 1
+    match par.toNat?, parsePyr pyr with
+    | some par, some (d, ap, t) => match Walk.prologue d ap t with
+      | .ok pr => replayWalk (Walk.init par (2 * par) ap pr.seeds pr.pre) 0 labels
+      | .error e => showErr e
+    | _, _ => "bad-op"
+  | _ => "bad-op"
+
 def handle (toks : List String) : String :=
   match toks with
   | "gen" :: op :: args => match ints args with
@@ -515,6 +590,7 @@ def handle (toks : List String) : String :=
   | "range" :: args => handleRange args
   | "stage" :: args => handleStage args
   | "lock" :: args => handleLock args
+  | "walk" :: args => handleWalk args
   | _ => "bad-op"
 
 end Driver
